@@ -263,17 +263,30 @@ def run_impl(case):
 def _run_built(case, cls, kw, exact, outer):
     try:
         x = cls(**kw)
+        inner_x = x
         if outer is not None:
             cls, x = outer, outer(inner=x, tag="")
     except Exception as e:
         return {"skip": f"construction: {type(e).__name__}: {e}"[:200]}
     res = {"exact": exact, "kinds": [("compact-" + case["compact"] + ":" if case.get("compact") else "") + f"{f['wrap']}>{f['leaf']}" for f in case["fields"]]}
+    xcls = xdecl_class(case, nested=outer is not None)
     try:
         doc = Serializer(x).serialize()
         res["doc"] = repr(doc)[:300]
     except Exception as e:
         res["ser_exc"] = f"{type(e).__name__}: {e}"[:200]
         return res
+    if xcls is not None:
+        try:
+            from .. import dump
+            kwx = {"inner": inner_x, "tag": ""} if outer is not None else kw
+            res["xline"] = dict({"suite": "serdex", "cls": xcls, "kw": [[k, xwire(v)] for k, v in kwx.items()], "opts": XOPTS},
+                                **xtables(case, [x], [doc]))
+            res["x_inst"] = xwire(x)
+            res["x_ser"] = {"ok": dump.dump_value(doc)}
+        except Exception as e:
+            res.pop("xline", None)
+            res["xline_skipped"] = f"{type(e).__name__}: {e}"[:200]
     res["impure"] = pure_json_path(doc)
     if not case.get("compact"):
         # the documented JSON form, written down independently of the Serializer (image, below)
@@ -299,8 +312,13 @@ def _run_built(case, cls, kw, exact, outer):
         y = Deserializer(cls).deserialize(json.loads(text))
     except Exception as e:
         res["deser_exc"] = f"{type(e).__name__}: {e}"[:300]
+        if "xline" in res:
+            res["x_back"] = {"err": "InvalidStructureErr" if type(e).__name__ == "InvalidStructureErr" else "TypeError" if isinstance(e, TypeError)
+                             else "ValueError" if isinstance(e, ValueError) else type(e).__name__, "msg": str(e)[:200]}
         return res
     res["equal"] = bool(y == x)
+    if "xline" in res:
+        res["x_back"] = {"ok": xwire(y)}
     try:
         res["fixpoint"] = Serializer(y).serialize() == doc
     except Exception as e:
@@ -626,11 +644,22 @@ def run_exact(case):
     try:
         y = Deserializer(cls).deserialize(json.loads(json.dumps(doc)))
         res["out"] = "accepted"
+        res["x_deser"] = {"ok": xwire(y)}
     except Exception as e:
         res["out"] = "rejected"
         res["exc"] = type(e).__name__
         res["documented_exc"] = isinstance(e, (TypeError, ValueError))
         res["msg"] = str(e)[:200]
+        res["x_deser"] = {"err": "InvalidStructureErr" if type(e).__name__ == "InvalidStructureErr" else "TypeError" if isinstance(e, TypeError)
+                          else "ValueError" if isinstance(e, ValueError) else type(e).__name__, "msg": str(e)[:200]}
+    xcls = xdecl_class(case)
+    if xcls is not None:
+        try:
+            from .. import dump
+            res["xline"] = dict({"suite": "serdex", "cls": xcls, "doc": dump.dump_value(json.loads(json.dumps(doc))), "opts": XOPTS},
+                                **xtables(case, [y] if y is not None else [], [doc]))
+        except Exception as e:
+            res["xline_skipped"] = f"{type(e).__name__}: {e}"[:200]
     nan_doc = case.get("corrupt") is not None and CORRUPTIONS[case["corrupt"][1]] in NAN_STRINGS
     if y is not None and not nan_doc:       # (a NaN is not equal to itself; comparing a signalling NaN raises)
         if expected is not None:
@@ -652,7 +681,7 @@ def judge_exact(case, impl):
                       f"Deserializer rejected {impl['doc']} with {impl['exc']} ({impl['msg']}) instead of TypeError/ValueError"))
     # AnyOf[DecimalNumber(bounds), Integer]: both options read a JSON number, and the first one deserializes every
     # number (its bounds are the constructor's business): indistinguishable options are outside the statement
-    ambiguous = any(f["wrap"] == "anyof-then-int" and f["leaf"] == "decimal-bounded" for f in case["fields"]) or impl.get("ambiguous_set")
+    ambiguous = any(f["wrap"] in ("anyof-then-int", "optional-union") and f["leaf"] == "decimal-bounded" for f in case["fields"]) or impl.get("ambiguous_set")
     if impl["ctor"] == "accepted" and impl["out"] == "rejected":
         if not ambiguous:
             fails.append((f"extras:rejects-image:{site}",
@@ -669,6 +698,243 @@ def judge_exact(case, impl):
         elif impl.get("equal_orig") is False:
             fails.append((f"extras:image-not-equal:{site}", f"deserializing the image {impl['doc']} of a valid instance gives a different instance"))
     return fails
+
+
+# ------------------------------------------------------------------ the Lean model of the extension kinds (suite serdex)
+#
+# Sem/SerdeX.lean carries DecimalNumber, Enum by value, DateField / DateTime and the core scalars, bare and inside
+# Optional / Array / Deque / Set / Map / Tuple / a nested class.  For the cases it covers a model line is produced:
+# the class as an XDecl, the values on the wire, and the answers of float(Decimal) / strptime / strftime as tables.
+
+TEMPORAL = {"date": ("date", "%Y-%m-%d", False), "date-compact": ("date", "%Y%m%d", False),
+            "datetime": ("datetime", "%m/%d/%y %H:%M:%S", True)}
+BASE_LEAVES = {"integer": {"k": "integer"}, "string": {"k": "string"}, "float": {"k": "float"}, "boolean": {"k": "boolean"},
+               "string-jsonlike": {"k": "string"}}
+
+
+def xdecl_leaf(leaf):
+    from .. import dump
+    if leaf == "decimal":
+        return {"k": "decimal"}
+    if leaf == "decimal-bounded":
+        return {"k": "decimal", "min": [0, 1], "max": [100, 1]}
+    if leaf.startswith("enum-by-value:"):
+        ecls = ENUMS[leaf.split(":")[1]]
+        return {"k": "enumVal", "cls": ecls.__name__, "members": [[m.name, dump.dump_value(m.value)] for m in ecls],
+                "mixin": issubclass(ecls, int)}
+    if leaf.startswith("enum-by-name:"):
+        ecls = ENUMS[leaf.split(":")[1]]
+        if issubclass(ecls, (int, str)):
+            return None     # members equal to their values: the core enumCls declaration does not carry that
+        return {"k": "base", "f": {"k": "enumCls", "cls": ecls.__name__, "names": [m.name for m in ecls]}}
+    if leaf in TEMPORAL:
+        ty, fmt, ints = TEMPORAL[leaf]
+        return {"k": "temporal", "ty": ty, "fmt": fmt, "ints": ints}
+    if leaf in BASE_LEAVES:
+        return {"k": "base", "f": dict(BASE_LEAVES[leaf])}
+    return None
+
+
+def xdecl_shape(shape, leafdecl):
+    if shape == "L":
+        return leafdecl
+    tag, sub = shape
+    inner = xdecl_shape(sub, leafdecl)
+    if inner is None:
+        return None
+    if tag == "opt":
+        return {"k": "opt", "x": inner}
+    if tag == "arr":
+        return {"k": "seqOf", "x": inner}
+    if tag == "deq":
+        return {"k": "seqOf", "seq": "deque", "x": inner}
+    if tag == "set":
+        return {"k": "setOf", "x": inner}
+    if tag == "map":
+        return {"k": "mapStr", "x": inner}
+    if tag == "tup2":
+        return {"k": "tuplePos", "xs": [inner, {"k": "base", "f": {"k": "integer"}}]}
+    return None         # AnyOf[leaf, Integer]: not in the model
+
+
+def xdecl_class(case, nested=False):
+    if case.get("compact"):
+        return None
+    fields = []
+    for f in case["fields"]:
+        leafdecl = xdecl_leaf(f["leaf"])
+        d = xdecl_shape(SHAPES[f["wrap"]], leafdecl) if leafdecl is not None else None
+        if d is None:
+            return None
+        fields.append([f["name"], d])
+    cls = {"k": "struct", "name": "X", "required": [f["name"] for f in case["fields"] if f["wrap"] not in ("optional", "optional-union")],
+           "addl": True, "ignoreNone": bool(case.get("ignore_none")), "accepts": ["X"], "fields": fields}
+    if nested:
+        cls = {"k": "struct", "name": "Outer", "required": ["inner"], "addl": True, "accepts": ["Outer"],
+               "fields": [["inner", cls], ["tag", {"k": "base", "f": {"k": "string"}}]]}
+    return cls
+
+
+def xwire(v):
+    import collections
+    from .. import dump
+    if isinstance(v, datetime.datetime):
+        return {"x": "datetime:" + v.isoformat()}
+    if isinstance(v, datetime.date):
+        return {"x": "date:" + v.isoformat()}
+    if isinstance(v, enum.Enum) or v is None or isinstance(v, (bool, int, float, str, decimal.Decimal)):
+        return dump.dump_value(v)
+    if isinstance(v, collections.deque):
+        return {"q": [xwire(x) for x in collections.deque.__iter__(v)]}
+    if isinstance(v, list):
+        return {"l": [xwire(x) for x in list.__iter__(v)]}
+    if isinstance(v, tuple):
+        return {"t": [xwire(x) for x in v]}
+    if isinstance(v, frozenset):
+        return {"fs": [xwire(x) for x in v]}
+    if isinstance(v, set):
+        return {"s": [xwire(x) for x in v]}
+    if isinstance(v, dict):
+        return {"m": [[xwire(k), xwire(x)] for k, x in dict.items(v)]}
+    if isinstance(v, Structure):
+        return {"o": [type(v).__name__, [[k, xwire(x)] for k, x in v.__dict__.items() if k not in dump.INTERNAL]]}
+    return dump.dump_value(v)
+
+
+def _walk(v, fn):
+    import collections
+    fn(v)
+    if isinstance(v, Structure):
+        for x in list(v.__dict__.values()):
+            _walk(x, fn)
+    elif isinstance(v, dict):
+        for k, x in dict.items(v):
+            _walk(k, fn)
+            _walk(x, fn)
+    elif isinstance(v, (list, tuple, set, frozenset, collections.deque)):
+        for x in list(v):
+            _walk(x, fn)
+
+
+def xtables(case, values, docs):
+    """the oracle answers the model needs: float(d) for every Decimal among `values` (after conversion by the real
+    constructor), strftime for every date / datetime, strptime for every string of `docs` under every temporal
+    format the class uses"""
+    from .. import dump
+    fmts = sorted({TEMPORAL[f["leaf"]][:2] for f in case["fields"] if f["leaf"] in TEMPORAL})
+    decs, temps, strs = [], [], []
+
+    def see(v):
+        if isinstance(v, decimal.Decimal) and v.is_finite():
+            decs.append(v)
+        elif isinstance(v, bool):
+            pass
+        elif isinstance(v, (int, float)) and not isinstance(v, enum.Enum) and v == v and abs(v) != float("inf"):
+            decs.append(decimal.Decimal(v))
+        elif isinstance(v, (datetime.date, datetime.datetime)):
+            temps.append(v)
+        elif isinstance(v, str) and not isinstance(v, enum.Enum):
+            strs.append(v)
+    for v in values:
+        _walk(v, see)
+    for d in docs:
+        _walk(d, see)
+    tf, seen = [], set()
+    for d in decs:
+        key = tuple(dump.q_of(d))
+        if key not in seen:
+            seen.add(key)
+            try:
+                tf.append([list(key), dump.q_of(float(d))])
+            except OverflowError:
+                pass
+    fm, ps = [], []
+    for ty, fmt in fmts:
+        for t in temps:
+            if (ty == "datetime") == isinstance(t, datetime.datetime):
+                try:
+                    fm.append([ty, fmt, xwire(t)["x"], t.strftime(fmt)])
+                except Exception:
+                    pass
+        for sv in sorted(set(strs + [r[3] for r in fm if r[0] == ty and r[1] == fmt])):
+            try:
+                dt = datetime.datetime.strptime(sv, fmt)
+                ps.append([ty, fmt, sv, xwire(dt if ty == "datetime" else dt.date())["x"]])
+            except ValueError:
+                ps.append([ty, fmt, sv, None])
+    return {"toFloat": tf, "format": fm, "parse": ps}
+
+
+XOPTS = {"keepUndefined": True, "ignoreInvalidAddl": True}
+
+
+def _canon_wire_sets(decl, w):
+    """arrays of a serialized document that came from a Set sorted (the model iterates a set in insertion order)"""
+    if decl is None or not isinstance(w, dict):
+        return w
+    k = decl["k"]
+    key = lambda x: json.dumps(x, sort_keys=True)
+    if k == "opt":
+        return _canon_wire_sets(decl["x"], w)
+    if "l" in w:
+        if k == "setOf":
+            return {"l": sorted((_canon_wire_sets(decl["x"], x) for x in w["l"]), key=key)}
+        if k == "seqOf":
+            return {"l": [_canon_wire_sets(decl["x"], x) for x in w["l"]]}
+        if k == "tuplePos":
+            return {"l": [_canon_wire_sets(decl["xs"][i] if i < len(decl["xs"]) else None, x) for i, x in enumerate(w["l"])]}
+    if "m" in w:
+        if k == "struct":
+            fd = dict((n, f) for n, f in decl["fields"])
+            return {"m": sorted(([kk, _canon_wire_sets(fd.get(kk), v)] for kk, v in w["m"]), key=lambda kv: key(kv[0]))}
+        if k == "mapStr":
+            return {"m": sorted(([kk, _canon_wire_sets(decl["x"], v)] for kk, v in w["m"]), key=lambda kv: key(kv[0]))}
+    return w
+
+
+def _xdiff(what, m, i):
+    from .. import dump
+    if m is None or i is None:
+        return None
+    if str(m.get("err", "")).startswith("outside-model"):
+        return None
+    if "ok" in m:
+        if "ok" not in i:
+            return f"{what}: model ok, real code raises {i.get('err')}: {i.get('msg')}"
+        if dump.canon(m["ok"]) != dump.canon(i["ok"]):
+            return f"{what}: results differ: model {json.dumps(dump.canon(m['ok']))[:300]} impl {json.dumps(dump.canon(i['ok']))[:300]}"
+        return None
+    if "ok" in i:
+        return f"{what}: model raises {m['err']}, real code ok: {json.dumps(i['ok'])[:300]}"
+    if m["err"] != i["err"]:
+        return f"{what}: exception class differs: model {m['err']}, real code {i['err']}: {i.get('msg')}"
+    return None
+
+
+def xline(case, impl):
+    l = impl.get("xline")
+    return dict(l) if l else None
+
+
+def xcorrespond(case, impl, model):
+    """model (Sem/SerdeX.lean through the driver) vs real code, for the cases that have a model line"""
+    if not model or not impl.get("xline"):
+        return None
+    cls = impl["xline"]["cls"]
+    if "x_inst" in impl:
+        if "ok" not in model.get("inst", {}):
+            if str(model.get("inst", {}).get("err", "")).startswith("outside-model"):
+                return None
+            return f"model cannot construct the instance: {model.get('inst')}"
+        d = _xdiff("constructor", model["inst"], {"ok": impl["x_inst"]})
+        if d:
+            return d
+        ms, is_ = model.get("ser"), impl.get("x_ser")
+        if ms and is_ and "ok" in ms and "ok" in is_:
+            ms = {"ok": _canon_wire_sets(cls, ms["ok"])}
+            is_ = {"ok": _canon_wire_sets(cls, is_["ok"])}
+        return _xdiff("serialize", ms, is_) or _xdiff("deserialize(serialize(x))", model.get("back"), impl.get("x_back"))
+    return _xdiff("deserialize", model.get("deser"), impl.get("x_deser"))
 
 
 # ------------------------------------------------------------------ C02: ill-typed constructor arguments
